@@ -434,6 +434,7 @@ def lift_init(tree, src, out, meta):
         raise U(f"clip of the initial estimate changed: {ast.unparse(cl)}")
     meta["estimate"] = ast.unparse(est[0].value)
     meta["estimateClip"] = ast.unparse(cl).replace("\n", " ")
+    meta["estimateVar"] = n_name
     # the `if enough:` block
     blk = lb[1]
     enough, t = Expr({f"len({g_name})": ("len", "Int"), "len(self.accumulator)": ("len", "Int"), "grid_size": ("gridSize", "Int")},
@@ -628,6 +629,47 @@ def lift_gridsearch(tree, src, out, meta):
         if tw != "Rat":
             raise U(f"reweighting is not a float expression: {ast.unparse(wv)}")
     meta["relabelY"], meta["relabelW"] = ast.unparse(rb[0]), ast.unparse(rb[1])
+    # the regression branch (`else:`): the labels are the moment's own `_y_as_series`, the signed weights are passed on as they
+    # are; anything else (another label source, a reweighting we cannot translate) is refused
+    rg = strip_docs(rel.orelse)
+    rg_y = [s for s in rg if assign_to(s, y_name) is not None]
+    rg_w = [s for s in rg if assign_to(s, w_name) is not None]
+    if len(rg_y) != 1 or len(rg_w) > 1 or len(rg) != len(rg_y) + len(rg_w):
+        raise U(f"regression branch of the relabelling changed: {[ast.unparse(s) for s in rg]}")
+    if ast.unparse(assign_to(rg_y[0])[1]) != "self.constraints._y_as_series":
+        raise U(f"regression labels are not self.constraints._y_as_series: {ast.unparse(rg_y[0])}")
+    if rg_w:
+        rwv = assign_to(rg_w[0])[1]
+        if ast.unparse(rwv) in (f"{w_name}.abs()", f"np.abs({w_name})", f"abs({w_name})"):
+            reg_w_term = "(ratAbs w)"
+        else:
+            reg_w_term, tw = Expr({w_name: ("w", "Rat")}, src).tr(rwv)
+            if tw != "Rat":
+                raise U(f"regression reweighting is not a float expression: {ast.unparse(rwv)}")
+    else:
+        reg_w_term = "w"
+    meta["regression"] = "; ".join(ast.unparse(s) for s in rg)
+    # where `is_classification_reduction` comes from: `if isinstance(self.constraints, ClassificationMoment): True else: False`
+    icr = [s for s in fb if isinstance(s, ast.If) and any(assign_to(t, "is_classification_reduction") for t in strip_docs(s.body))]
+    others = [n for n in ast.walk(fit) if isinstance(n, ast.Assign) and any(ast.unparse(t) == "is_classification_reduction" for t in n.targets)]
+    ictest = "isinstance(self.constraints, ClassificationMoment)"
+    direct = [s for s in fb if assign_to(s, "is_classification_reduction")]
+    if not icr and len(direct) == 1 and len(others) == 1 and ast.unparse(direct[0].value) == ictest:
+        # the same flag written as `is_classification_reduction = isinstance(self.constraints, ClassificationMoment)`
+        cd, cvals = direct[0], ["true", "false"]
+    else:
+        cd = one(icr, "`if isinstance(self.constraints, ClassificationMoment):` defining is_classification_reduction")
+        if ast.unparse(cd.test) != ictest or len(others) != 2:
+            raise U(f"is_classification_reduction is not decided by {ictest}: {ast.unparse(cd.test)}")
+        cvals = []
+        for blk in (cd.body, cd.orelse):
+            nm, v = values_assign(strip_docs(blk), "is_classification_reduction")
+            if nm != "is_classification_reduction" or not (isinstance(v, ast.Constant) and isinstance(v.value, bool)):
+                raise U(f"is_classification_reduction is not assigned a literal Boolean: {ast.unparse(cd)}")
+            cvals.append("true" if v.value else "false")
+    if fb.index(cd) > fb.index(loop):
+        raise U("is_classification_reduction is decided after the loop over the grid")
+    meta["isClassification"] = f"{ictest} -> {cvals[0]} / {cvals[1]}"
     if not (lb.index(lam) < lb.index(w0) < lb.index(add) < lb.index(rel)):
         raise U("order of lambda_vec / weights / objective weights / relabelling changed")
     # dummy rule
@@ -718,6 +760,12 @@ def lift_gridsearch(tree, src, out, meta):
         f"def relabelY (w : Rat) : Int := {y_term}", "",
         f"/-- `{meta['relabelW']}` -/",
         f"def relabelW (w : Rat) : Rat := {w_term}", "",
+        "/-- `is_classification_reduction`: `isinstance(self.constraints, ClassificationMoment)` -/",
+        f"def isClassification (isClassificationMoment : Bool) : Bool := if isClassificationMoment then {cvals[0]} else {cvals[1]}", "",
+        f"/-- the `else:` (regression) branch of `if is_classification_reduction`: `{meta['regression']}` — the learner gets the",
+        "    moment's own labels and the signed weights -/",
+        "def regressionY (y w : Rat) : Rat := y",
+        f"def regressionW (w : Rat) : Rat := {reg_w_term}", "",
         f"/-- `if {meta['useDummy']}:` train a constant DummyClassifier instead of the estimator -/",
         f"def useDummy (nUnique : Int) : Bool := {dummy}", "",
         f"/-- `loss_fct`: `{meta['loss']}` -/",
